@@ -70,3 +70,10 @@ namespace Kmip
 theorem GenC18_codec_src_desc : KmipGen.codecSrc_desc = ExpectCodec.codecSrc_desc := by decide
 
 end Kmip
+
+namespace Kmip
+
+/-- encoder (encode.go, encode_core.go) -/
+theorem GenC18_codec_src_enc : KmipGen.codecSrc_enc = ExpectCodec.codecSrc_enc := by decide
+
+end Kmip
